@@ -183,10 +183,28 @@ def _r1(chk, repo):
             idx, el = (pn(loops[0].ast.target.elts[0]), pn(loops[0].ast.target.elts[1])) if len(loops) == 1 else (None, None)
             V = xt(st[0].ast.value, st[0])
             if ci is jd:
-                want = {pn(f"self.get_parameter_names()[{idx}]")}
+                seqs = {"self.get_parameter_names()"}
             else:
                 cv_ = func_params(f)[1]
-                want = {pn(f"{w}[{idx}]") for w in (f"copy({cv_})", f"list({cv_})", f"{cv_}.copy()", f"({cv_}+['_main_parameter'])", f"{cv_}[:]")}
+                base = (f"copy({cv_})", f"list({cv_})", f"{cv_}.copy()", f"{cv_}[:]", cv_)
+                seqs = {w for w in base[:-1]} | {f"({w}+['_main_parameter'])" for w in base}
+            want = {pn(f"{w}[{idx}]") for w in seqs}
+            if idx is None:
+                # the same pairing spelled with zip: for key, value in zip(<names>, args)
+                zl = [n for n in g.nodes if n.kind == "iter" and isinstance(n.ast.iter, ast.Call) and call_name(n.ast.iter) == "zip" and len(n.ast.iter.args) == 2
+                      and isinstance(n.ast.target, ast.Tuple) and len(n.ast.target.elts) == 2]
+                if len(zl) == 1:
+                    a0, a1 = (xt(a_, zl[0]) for a_ in zl[0].ast.iter.args)
+                    t0, t1 = (pn(t_) for t_ in zl[0].ast.target.elts)
+                    if a1 == "args":
+                        seq_t, key_v, el = a0, t0, t1
+                    elif a0 == "args":
+                        seq_t, key_v, el = a1, t1, t0
+                    else:
+                        seq_t = key_v = None
+                    if seq_t is not None:
+                        idx = "<zip>"
+                        want = {key_v} if seq_t in {pn(w) for w in seqs} | {pn(w.strip("()")) for w in seqs} else set()
             chk.decide("C01-R1", f"{ci.qual}.{fname}/order", K in want and V == el, idx is not None, site(repo, f),
                        "the i-th positional value is filed under the i-th current parameter name",
                        f"positional values are filed under `{K}` (value `{V}`), not under the i-th of the object's current parameter names: after some variables "
@@ -269,22 +287,43 @@ def _r2(chk, repo):
     chk.add("C01-R2", f"{jd.qual}._reduce_to_single_density", not best, site(repo, red), "every reduction keeps all factors or folds the fixed ones' sum", "; ".join(best), red)
     add = repo.method(jd, "_add_constants_to_density")[1]
     d = func_params(add)[1]
-    V = views(repo, jd, add)
-    upd = any(x in V for x in (f"{d}._constant={d}._constant+self._sum_evaluated_densities()", f"{d}._constant+=self._sum_evaluated_densities()",
-                               f"{d}._constant=self._sum_evaluated_densities()+{d}._constant"))
+    # the value stored in the reduced density's constant, with the class's private helpers inlined and temporaries replaced by their definitions:
+    # <old constant> + sum(e.logd() for e in self._evaluated_densities)   (either operand order, list or generator, += or =)
+    from .common import canon_fn
+    from ..flow import Expander
+    addv = canon_fn(repo, jd, add, 2)
+    ex = Expander(addv)
+
+    def is_sum(e):
+        if not (isinstance(e, ast.Call) and call_name(e) == "sum" and len(e.args) == 1 and isinstance(e.args[0], (ast.ListComp, ast.GeneratorExp))):
+            return False
+        c = e.args[0]
+        if len(c.generators) != 1 or c.generators[0].ifs or not isinstance(c.generators[0].target, ast.Name):
+            return False
+        k = c.generators[0].target.id
+        return pn(c.generators[0].iter) == "self._evaluated_densities" and pn(c.elt) == f"{k}.logd()"
+    upd, seen_store = False, False
+    for n in ex.cfg.nodes:
+        if n.kind != "stmt":
+            continue
+        if isinstance(n.ast, ast.Assign) and any(path_of(t) == f"{d}._constant" for t in n.ast.targets):
+            seen_store = True
+            e_ = ex.expand(n.ast.value, n, stop=frozenset({d}))
+            if isinstance(e_, ast.BinOp) and isinstance(e_.op, ast.Add):
+                a_, b_ = e_.left, e_.right
+                upd = upd or (pn(a_) == f"{d}._constant" and is_sum(b_)) or (pn(b_) == f"{d}._constant" and is_sum(a_))
+        elif isinstance(n.ast, ast.AugAssign) and path_of(n.ast.target) == f"{d}._constant" and isinstance(n.ast.op, ast.Add):
+            seen_store = True
+            upd = upd or is_sum(ex.expand(n.ast.value, n, stop=frozenset({d})))
     v, g = cfgv(repo, jd, add)
     rets = [pn(r.ast.value) for r in g.returns()]
     ok = upd and rets and all(r == d for r in rets)
-    rec = f"{d}._constant" in V
-    chk.decide("C01-R2", f"{jd.qual}._add_constants_to_density", ok, rec or not upd, site(repo, add), "adds the sum of all evaluated densities to the reduced density's constant",
-               "the sum of the fixed variables' log-densities is not added to the reduced density (or another object is returned)", add)
-    se = repo.method(jd, "_sum_evaluated_densities")[1]
-    V = views(repo, jd, se)
-    ok = any(x in V for x in ("return sum([_k0.logd() for _k0 in self._evaluated_densities])", "return sum((_k0.logd() for _k0 in self._evaluated_densities))"))
+    chk.decide("C01-R2", f"{jd.qual}._add_constants_to_density", ok, seen_store or not upd, site(repo, add), "adds the sum of all evaluated densities to the reduced density's constant",
+               "the sum of the fixed variables' log-densities (sum of logd() over self._evaluated_densities) is not added to the reduced density's constant (or another object is returned)", add)
     ev = jd.props.get("_evaluated_densities")
-    ok = ok and ev is not None and "[_k0 for _k0 in self._densities if isinstance(_k0,EvaluatedDensity)]" in views(repo, jd, ev.getter)
-    chk.add("C01-R2", f"{jd.qual}._sum_evaluated_densities", ok, site(repo, se), "sum of logd() over exactly the EvaluatedDensity factors",
-            "the folded constant is not the sum over all evaluated factors", se)
+    ok = ev is not None and "[_k0 for _k0 in self._densities if isinstance(_k0,EvaluatedDensity)]" in views(repo, jd, ev.getter)
+    chk.add("C01-R2", f"{jd.qual}._evaluated_densities", ok, site(repo, ev.getter if ev else add), "exactly the EvaluatedDensity factors",
+            "the folded constant is not the sum over all evaluated factors", ev.getter if ev else add)
     dist = repo.cls("cuqi/distribution/_distribution.py:Distribution")
     tl = repo.method(dist, "to_likelihood")[1]
     v, g = cfgv(repo, dist, tl)
